@@ -252,6 +252,15 @@ class Fn:
                 self.mod.need_hash=True
                 x=self.ex(f.value.args[0].func.value,binds)
                 return lib("py_md5_hexdigest",x)
+            if f.attr=="join" and len(e.args)==1:
+                sep=self.ex(f.value,binds); x=A(0)
+                return lib("py_join",sep,x)
+            if f.attr in ("startswith","endswith") and len(e.args)==1:
+                x=self.ex(f.value,binds)
+                return lib("py_"+f.attr,x,A(0))
+            if f.attr in ("lower","upper") and not e.args:
+                x=self.ex(f.value,binds)
+                return lib("py_"+f.attr,x)
             if f.attr=="format":
                 o=self.ex(f.value,binds); args="(VList [%s])"%";".join(self.ex(a,binds) for a in e.args)
                 kw="(VDict [%s])"%";".join("(S_ %s, %s)"%(cq(k.arg),self.ex(k.value,binds)) for k in e.keywords)
